@@ -139,6 +139,17 @@ Fixpoint trim_left (x : str) : str :=
 Definition trim_right (x : str) : str := rev (trim_left (rev x)).
 Definition trim_space (x : str) : str := trim_right (trim_left x).
 
+(** Go [strings.Fields] for ASCII white space: maximal runs of non-space characters. *)
+Fixpoint fields_aux (cur : str) (x : str) : list str :=
+  match x with
+  | [] => match cur with [] => [] | _ => [rev cur] end
+  | a :: t =>
+      if is_space a then
+        match cur with [] => fields_aux [] t | _ => rev cur :: fields_aux [] t end
+      else fields_aux (a :: cur) t
+  end.
+Definition fields (x : str) : list str := fields_aux [] x.
+
 Fixpoint all_nospace (x : str) : bool :=
   match x with [] => true | a :: t => negb (is_space a) && all_nospace t end.
 
